@@ -5,7 +5,7 @@ LEVEL = "exploration"
 RULE = ("(c) AT&T templates over all general-purpose registers and widths, scales 1/2/4/8, displacements of either sign, "
         "0-3 operands in any mix, direct and indirect branches, 64- and 32-bit, assembled by the installed `as` and printed by "
         "the installed objdump (spellings such as 0x0(,%rbx,8) are objdump's); plus S-syn renderings of operand mixes `as` "
-        "refuses. The text goes through the assembly route; for every instruction whose operands are all in the forms listed "
+        "refuses; a share of the listings is saved with CRLF line endings. The text goes through the assembly route; for every instruction whose operands are all in the forms listed "
         "by the property the decoded stream operands must equal R-line's normal-form table ($v->v, %r, k(a,b,c)->[a+b*c+k], "
         "(a,b,c)->[a+b*c], k(,b,c)->[+b*c+k], k(a)->[a+k], (a)->[a], 'addr <sym>'->addr) in content, number and order; "
         "for other shapes only the operand count is judged. Non-trivial/distinct = distinct (mnemonic, operand-shape) "
@@ -16,7 +16,10 @@ REQUIRED_EVENTS = ["instructions_judged"]
 
 
 def judge_listing(ctx, ws, text, origin):
-    p = ws.write("in.s", text)
+    if origin.endswith("crlf"):
+        p = ws.write("in.s", text.replace("\n", "\r\n").encode())
+    else:
+        p = ws.write("in.s", text)
     r = objd.real_stream(ws, p)
     ctx.ran()
     if r[0] != "ok":
@@ -64,10 +67,10 @@ def run_shard(ctx):
         if r is None:
             ctx.inconc("as refused a template batch")
         else:
-            judge_listing(ctx, ws, r[1], f"as{bits}")
+            judge_listing(ctx, ws, r[1], f"as{bits}" if ctx.rng.random() < 0.85 else f"as{bits}-crlf")
         # S-syn stratum: operand mixes `as` would refuse
         insts = L.gen_listing(ctx.rng, 40)
-        judge_listing(ctx, ws, L.render(insts, ctx.rng), "syn")
+        judge_listing(ctx, ws, L.render(insts, ctx.rng), "syn" if ctx.rng.random() < 0.7 else "syn-crlf")
 
 
 def replay(ctx, case):
